@@ -690,6 +690,159 @@ Proof.
   cbv zeta. repeat split; try assumption; try (apply Rs); try (apply Rq).
 Qed.
 
+(* ---- (11) the H_bar update IN FLOATING POINT (Model/NUTSEval.v hbar_step: the model the correspondence check
+   evaluates bit for bit after every transition), for every IEEE format with at least two bits of precision, round
+   to nearest even.  With delta in [0,1], alpha in [0, n_alpha] (section (10)) and the counts m + 10 and n_alpha
+   at most 2^prec: (a) the counts are converted exactly; (b) for |H_bar| <= 2 nothing overflows and the new H_bar
+   is the real expression of C04_hbar_update with each of its seven operations rounded; (c) H_bar in [-1,1] stays
+   in [-1,1] -- the float counterpart of C04_hbar_bounds_step, rounding slack included; (d) the new float H_bar is
+   within 4 * 2^-prec of the real-number update (absolute error; underflow included).  `rnd` below is rounding
+   to nearest even in the format.  Proofs/HbarStep.v ---- *)
+From MiniMcmc Require Import Proofs.HbarStep.
+Section C04_hbar_step.
+  Variables prec emax : Z.
+  Context (Hprec : FLX.Prec_gt_0 prec) (Hmax : BinarySingleNaN.Prec_lt_emax prec emax).
+  Hypothesis prec_ge_2 : (2 <= prec)%Z.
+  Notation fl := (binary_float prec emax).
+  Variable nanf : fl -> fl -> { x : fl | Binary.is_nan prec emax x = true }.
+  Notation rnd := (Generic_fmt.round Zaux.radix2 (FLT.FLT_exp (3 - emax - prec) prec)
+                     (Generic_fmt.Znearest (fun x => negb (Z.even x)))).
+
+  Theorem C04_hbar_step_count_exact : forall n : nat, (Z.of_nat n <= 2 ^ prec)%Z ->
+    Binary.is_finite prec emax (count_fl prec emax Hprec Hmax n) = true /\
+    Binary.B2R prec emax (count_fl prec emax Hprec Hmax n) = INR n.
+  Proof. exact (count_fl_exact prec emax Hprec Hmax). Qed.
+
+  Theorem C04_hbar_step_rounded_value : forall (one delta h alpha : fl) (m n_alpha : nat),
+    Binary.is_finite prec emax one = true -> Binary.is_finite prec emax delta = true ->
+    Binary.is_finite prec emax h = true -> Binary.is_finite prec emax alpha = true ->
+    Binary.B2R prec emax one = 1%R ->
+    (1 <= n_alpha)%nat -> (Z.of_nat (m + 10) <= 2 ^ prec)%Z -> (Z.of_nat n_alpha <= 2 ^ prec)%Z ->
+    (0 <= Binary.B2R prec emax delta <= 1)%R ->
+    (0 <= Binary.B2R prec emax alpha <= INR n_alpha)%R ->
+    (Rabs (Binary.B2R prec emax h) <= 2)%R ->
+    let e := rnd (1 / INR (m + 10))%R in
+    Binary.B2R prec emax (hbar_step nanf one delta h alpha m n_alpha)
+    = rnd (rnd (rnd (1 - e) * Binary.B2R prec emax h)
+           + rnd (e * rnd (Binary.B2R prec emax delta
+                           - rnd (Binary.B2R prec emax alpha / INR n_alpha))))%R /\
+    Binary.is_finite prec emax (hbar_step nanf one delta h alpha m n_alpha) = true.
+  Proof.
+    intros one delta h alpha m n_alpha F1 Fd Fh Fa V1 Hn1 HN Hn Hd Ha Hh.
+    exact (hbar_step_rounded prec emax Hprec Hmax nanf prec_ge_2 one delta h alpha m n_alpha
+             F1 Fd Fh Fa V1 Hn1 HN Hn Hd Ha Hh).
+  Qed.
+
+  Theorem C04_hbar_step_range : forall (one delta h alpha : fl) (m n_alpha : nat),
+    Binary.is_finite prec emax one = true -> Binary.is_finite prec emax delta = true ->
+    Binary.is_finite prec emax h = true -> Binary.is_finite prec emax alpha = true ->
+    Binary.B2R prec emax one = 1%R ->
+    (1 <= n_alpha)%nat -> (Z.of_nat (m + 10) <= 2 ^ prec)%Z -> (Z.of_nat n_alpha <= 2 ^ prec)%Z ->
+    (0 <= Binary.B2R prec emax delta <= 1)%R ->
+    (0 <= Binary.B2R prec emax alpha <= INR n_alpha)%R ->
+    (-1 <= Binary.B2R prec emax h <= 1)%R ->
+    Binary.is_finite prec emax (hbar_step nanf one delta h alpha m n_alpha) = true /\
+    (-1 <= Binary.B2R prec emax (hbar_step nanf one delta h alpha m n_alpha) <= 1)%R.
+  Proof.
+    intros one delta h alpha m n_alpha F1 Fd Fh Fa V1 Hn1 HN Hn Hd Ha Hh.
+    exact (hbar_step_range prec emax Hprec Hmax nanf prec_ge_2 one delta h alpha m n_alpha
+             F1 Fd Fh Fa V1 Hn1 HN Hn Hd Ha Hh).
+  Qed.
+
+  Theorem C04_hbar_step_error : forall (one delta h alpha : fl) (m n_alpha : nat),
+    Binary.is_finite prec emax one = true -> Binary.is_finite prec emax delta = true ->
+    Binary.is_finite prec emax h = true -> Binary.is_finite prec emax alpha = true ->
+    Binary.B2R prec emax one = 1%R ->
+    (1 <= n_alpha)%nat -> (Z.of_nat (m + 10) <= 2 ^ prec)%Z -> (Z.of_nat n_alpha <= 2 ^ prec)%Z ->
+    (0 <= Binary.B2R prec emax delta <= 1)%R ->
+    (0 <= Binary.B2R prec emax alpha <= INR n_alpha)%R ->
+    (-1 <= Binary.B2R prec emax h <= 1)%R ->
+    (Rabs (Binary.B2R prec emax (hbar_step nanf one delta h alpha m n_alpha)
+           - ((1 - 1 / INR (m + 10)) * Binary.B2R prec emax h
+              + 1 / INR (m + 10)
+                * (Binary.B2R prec emax delta - Binary.B2R prec emax alpha / INR n_alpha)))
+     <= 4 * Raux.bpow Zaux.radix2 (- prec))%R.
+  Proof.
+    intros one delta h alpha m n_alpha F1 Fd Fh Fa V1 Hn1 HN Hn Hd Ha Hh.
+    exact (hbar_step_error prec emax Hprec Hmax nanf prec_ge_2 one delta h alpha m n_alpha
+             F1 Fd Fh Fa V1 Hn1 HN Hn Hd Ha Hh).
+  Qed.
+End C04_hbar_step.
+
+(* binary32: one = 1.0f32, delta = 0.8f32 (bits 1061997773 = 13421773 * 2^-24), H_bar = 0, alpha = 1.0 over
+   n_alpha = 2 leaves, first update (m = 1, eta = 1/11): every hypothesis of the three theorems holds, the new
+   H_bar has bits 1021274895 (~ 0.0272727), and the conclusions of (b), (c), (d) follow for it *)
+Definition c04_delta32 : binary32 := Binary.B754_finite 24 128 false 13421773 (-24) eq_refl.
+Lemma c04_delta32_bits : b32_of_bits 1061997773 = c04_delta32.
+Proof. exact (binary_float_of_bits_of_binary_float 23 8 eq_refl eq_refl eq_refl c04_delta32). Qed.
+Lemma c04_delta32_R : Binary.B2R 24 128 c04_delta32 = (13421773 / 16777216)%R.
+Proof.
+  unfold c04_delta32, Binary.B2R, Defs.F2R.
+  cbn [Defs.Fnum Defs.Fexp cond_Zopp Raux.bpow Z.pow_pos Pos.iter radix_val radix2 Z.mul Pos.mul]. Lra.lra.
+Qed.
+Lemma c04_zero32_bits : b32_of_bits 0 = Binary.B754_zero 24 128 false.
+Proof. vm_compute. reflexivity. Qed.
+
+Example C04_hbar_step_binary32 :
+  let one := b32_of_bits 1065353216 in
+  let delta := b32_of_bits 1061997773 in
+  let h := b32_of_bits 0 in
+  let alpha := b32_of_bits 1065353216 in
+  let r := hbar_step binop_nan_pl32 one delta h alpha 1 2 in
+  hbar_step32 1061997773 0 1065353216 1 2 = [1021274895]%Z /\
+  bits_of_b32 r = 1021274895%Z /\
+  (2 <= 24)%Z /\
+  Binary.is_finite 24 128 one = true /\ Binary.is_finite 24 128 delta = true /\
+  Binary.is_finite 24 128 h = true /\ Binary.is_finite 24 128 alpha = true /\
+  Binary.B2R 24 128 one = 1%R /\
+  (1 <= 2)%nat /\ (Z.of_nat (1 + 10) <= 2 ^ 24)%Z /\ (Z.of_nat 2 <= 2 ^ 24)%Z /\
+  (0 <= Binary.B2R 24 128 delta <= 1)%R /\
+  (0 <= Binary.B2R 24 128 alpha <= INR 2)%R /\
+  (-1 <= Binary.B2R 24 128 h <= 1)%R /\ (Rabs (Binary.B2R 24 128 h) <= 2)%R /\
+  (* conclusions *)
+  Binary.is_finite 24 128 r = true /\
+  (-1 <= Binary.B2R 24 128 r <= 1)%R /\
+  (Rabs (Binary.B2R 24 128 r
+         - ((1 - 1 / INR (1 + 10)) * Binary.B2R 24 128 h
+            + 1 / INR (1 + 10) * (Binary.B2R 24 128 delta - Binary.B2R 24 128 alpha / INR 2)))
+   <= 4 * Raux.bpow Zaux.radix2 (- 24))%R /\
+  (let rnd := Generic_fmt.round Zaux.radix2 (FLT.FLT_exp (3 - 128 - 24) 24)
+                (Generic_fmt.Znearest (fun x => negb (Z.even x))) in
+   let e := rnd (1 / INR (1 + 10))%R in
+   Binary.B2R 24 128 r
+   = rnd (rnd (rnd (1 - e) * Binary.B2R 24 128 h)
+          + rnd (e * rnd (Binary.B2R 24 128 delta - rnd (Binary.B2R 24 128 alpha / INR 2))))%R).
+Proof.
+  intros one delta h alpha r.
+  assert (P2 : (2 <= 24)%Z) by (vm_compute; discriminate).
+  assert (F1 : Binary.is_finite 24 128 one = true) by (vm_compute; reflexivity).
+  assert (Fd : Binary.is_finite 24 128 delta = true) by (vm_compute; reflexivity).
+  assert (Fh : Binary.is_finite 24 128 h = true) by (vm_compute; reflexivity).
+  assert (V1 : Binary.B2R 24 128 one = 1%R)
+    by (unfold one; rewrite c04_one32_bits; exact c04_one32_R).
+  assert (Hn1 : (1 <= 2)%nat) by (apply le_S, le_n).
+  assert (HN : (Z.of_nat (1 + 10) <= 2 ^ 24)%Z) by (vm_compute; discriminate).
+  assert (Hn : (Z.of_nat 2 <= 2 ^ 24)%Z) by (vm_compute; discriminate).
+  assert (Hd : (0 <= Binary.B2R 24 128 delta <= 1)%R)
+    by (unfold delta; rewrite c04_delta32_bits, c04_delta32_R; Lra.lra).
+  assert (Ha : (0 <= Binary.B2R 24 128 alpha <= INR 2)%R).
+  { change alpha with one. rewrite V1. cbn [INR]. Lra.lra. }
+  assert (Hh : (-1 <= Binary.B2R 24 128 h <= 1)%R).
+  { unfold h. rewrite c04_zero32_bits. cbn [Binary.B2R]. Lra.lra. }
+  assert (Hh2 : (Rabs (Binary.B2R 24 128 h) <= 2)%R) by (apply Rabs_le; Lra.lra).
+  destruct (C04_hbar_step_range 24 128 prec32 emax32 P2 binop_nan_pl32 one delta h alpha 1 2
+              F1 Fd Fh F1 V1 Hn1 HN Hn Hd Ha Hh) as [Fr Rr].
+  pose proof (C04_hbar_step_error 24 128 prec32 emax32 P2 binop_nan_pl32 one delta h alpha 1 2
+                F1 Fd Fh F1 V1 Hn1 HN Hn Hd Ha Hh) as Er.
+  destruct (C04_hbar_step_rounded_value 24 128 prec32 emax32 P2 binop_nan_pl32 one delta h alpha 1 2
+              F1 Fd Fh F1 V1 Hn1 HN Hn Hd Ha Hh2) as [Vr _].
+  split; [vm_compute; reflexivity|]. split; [vm_compute; reflexivity|].
+  split; [exact P2|]. split; [exact F1|]. split; [exact Fd|]. split; [exact Fh|]. split; [exact F1|].
+  split; [exact V1|]. split; [exact Hn1|]. split; [exact HN|]. split; [exact Hn|].
+  split; [exact Hd|]. split; [exact Ha|]. split; [exact Hh|]. split; [exact Hh2|].
+  split; [exact Fr|]. split; [exact Rr|]. split; [exact Er|]. exact Vr.
+Qed.
+
 Print Assumptions C04_warmup_closed_form.
 Print Assumptions C04_warmup_exp_form.
 Print Assumptions C04_hbar_update.
@@ -739,3 +892,8 @@ Print Assumptions C04_alpha_sum_range.
 Print Assumptions C04_acceptance_statistic_range.
 Print Assumptions C04_acceptance_statistic_leaf_rule.
 Print Assumptions C04_alpha_range_binary32.
+Print Assumptions C04_hbar_step_count_exact.
+Print Assumptions C04_hbar_step_rounded_value.
+Print Assumptions C04_hbar_step_range.
+Print Assumptions C04_hbar_step_error.
+Print Assumptions C04_hbar_step_binary32.
